@@ -1939,12 +1939,18 @@ arguments:
 	argument
 	{
 		$$ = $1
+		$<isExpr>$ = $<isExpr>1
 	}
 |	arguments ',' argument
 	{
 		if len($3.Args) != 0 && len($$.Keywords) != 0 {
 			yylex.(*yyLex).SyntaxError("non-keyword arg after keyword arg")
 		}
+		// isExpr marks an unparenthesised generator expression among the arguments
+		if $<isExpr>1 || $<isExpr>3 {
+			yylex.(*yyLex).SyntaxError("Generator expression must be parenthesized if not sole argument")
+		}
+		$<isExpr>$ = $<isExpr>1 || $<isExpr>3
 		$$.Args = append($$.Args, $3.Args...)
 		$$.Keywords = append($$.Keywords, $3.Keywords...)
 	}
@@ -1952,10 +1958,12 @@ arguments:
 optional_arguments:
 	{
 		$$ = &ast.Call{}
+		$<isExpr>$ = false
 	}
 |	arguments ','
 	{
 		$$ = $1
+		$<isExpr>$ = $<isExpr>1
 	}
 
 arguments2:
@@ -1980,6 +1988,9 @@ arglist:
 		if len($4.Args) != 0 {
 			yylex.(*yyLex).SyntaxError("only named arguments may follow *expression")
 		}
+		if $<isExpr>1 && len($4.Keywords) != 0 {
+			yylex.(*yyLex).SyntaxError("Generator expression must be parenthesized if not sole argument")
+		}
 		call.Keywords = append(call.Keywords, $4.Keywords...)
 		$$ = call
 	}
@@ -1990,6 +2001,9 @@ arglist:
 		call.Kwargs = $7
 		if len($4.Args) != 0 {
 			yylex.(*yyLex).SyntaxError("only named arguments may follow *expression")
+		}
+		if $<isExpr>1 && len($4.Keywords) != 0 {
+			yylex.(*yyLex).SyntaxError("Generator expression must be parenthesized if not sole argument")
 		}
 		call.Keywords = append(call.Keywords, $4.Keywords...)
 		$$ = call
@@ -2008,6 +2022,7 @@ argument:
 	{
 		$$ = &ast.Call{}
 		$$.Args = []ast.Expr{$1}
+		$<isExpr>$ = false
 	}
 |	test comp_for
 	{
@@ -2015,6 +2030,7 @@ argument:
 		$$.Args = []ast.Expr{
 			&ast.GeneratorExp{ExprBase: ast.ExprBase{Pos: $<pos>$}, Elt: $1, Generators: $2},
 		}
+		$<isExpr>$ = true
 	}
 |	test '=' test  // Really [keyword '='] test
 	{
@@ -2025,6 +2041,7 @@ argument:
 		} else {
 			yylex.(*yyLex).SyntaxError("keyword can't be an expression")
 		}
+		$<isExpr>$ = false
 	}
 
 comp_iter:
